@@ -552,13 +552,16 @@ impl Options {
 
         let replaced_options_usages = represented_usages.iter().map(|usage| {
             if usage.contains(OPTIONS_MARK) {
-                let remaining_options: Vec<_> = self
+                // `hash_set` yields the options in a different order in every process: sort
+                // them, or the same arguments are accepted in one run and rejected in the next
+                let mut remaining_options: Vec<_> = self
                     .hash_set
                     .clone()
                     .into_iter()
                     .filter(|o| !options_in_usage.contains(o))
                     .map(|o| o.get_representation())
                     .collect();
+                remaining_options.sort();
                 usage.replace(OPTIONS_MARK, &format!("[{}]", remaining_options.join(" ")))
             } else {
                 usage.to_owned()
